@@ -96,18 +96,18 @@ theorem exec_ownEq (P : Prog) (k : Nat) (s s' : State) (t : Nat) (i : Instr) (re
         simp [hc, occ, occI, oPlus, Ne.symm hjt]
     · refine ownEq_upd1 P k s _ t _ hE ht rfl ?_
       simp [hc, occ, occI, oPlus]
-  case create k' =>
+  case create k' pin nf =>
     simp only [exec] at h
     split at h
     · simp only [Option.some.injEq] at h; subst h
       refine ownEq_upd1 P k s _ t _ hE ht rfl ?_
       simp only [hc, occ, occI, oPlus, occ_append, cont_pending, pushW_pending]
-      split <;> simp [occ, occI]
+      by_cases hmk : P.managed k' = true <;> by_cases hp : pin = true <;> simp [hmk, hp, occ, occI]
     · split at h
       · simp only [Option.some.injEq] at h; subst h
         refine ownEq_upd1 P k s _ t _ hE ht rfl ?_
         simp only [hc, occ, occI, oPlus, occ_append, cont_pending]
-        split <;> simp [occ, occI]
+        by_cases hmk : P.managed k' = true <;> by_cases hp : pin = true <;> simp [hmk, hp, occ, occI]
       · rename_i hg
         simp only [not_or, Decidable.not_not, Nat.not_le] at hg
         obtain ⟨hs0, _, hkn, htk⟩ := hg
